@@ -788,3 +788,314 @@ def decode(hist, q, ti, rows, script_path):
         else:
             return (GARBLED, GARBLED)
     return (py, st)
+
+
+# ---------------------------------------------------------------------------------------------
+# Gallina printing of a history
+
+BASE_FP = {
+    'jedi/inference/imports.py:_load_python_module': '268579e362d6ded9',
+    'jedi/inference/imports.py:ModuleCache': 'c2a83ae5f0d2d060',
+    'jedi/inference/imports.py:import_module_by_names': '8acd74cf8f762a90',
+    'jedi/inference/imports.py:import_module': 'a18d442b872a67b3',
+    'jedi/inference/imports.py:Importer.follow': '44d8f49aab0ec6ec',
+    'jedi/inference/__init__.py:InferenceState.parse_and_get_code': '43321cafa498b064',
+    'jedi/inference/__init__.py:InferenceState.reset_recursion_limitations': 'beb0afd7c566cf14',
+    'jedi/inference/gradual/typeshed.py:import_module_decorator': '00e06859632277a9',
+    'jedi/inference/gradual/typeshed.py:_try_to_load_stub': '155ba182e70c12d9',
+    'jedi/inference/gradual/typeshed.py:parse_stub_module': '7f34b3f08937a330',
+    'jedi/inference/compiled/subprocess/functions.py:get_module_info': '956dd70fbd60f509',
+    'jedi/inference/compiled/subprocess/functions.py:_find_module': 'f83bfc60d96e682a',
+    'jedi/inference/compiled/subprocess/functions.py:_from_loader': '4df9a8c54b9a97e4',
+    'jedi/file_io.py:FileIO': '3919d827f3c4bcb8',
+    'jedi/file_io.py:KnownContentFileIO': 'c40764c97e0a3299',
+}
+
+DEFS = ''
+COQ_TIMEOUT = 2400
+FLAG_NAMES = {1: 'same_or_older_mtime', 2: 'same_or_older_mtime', 3: 'mtime_not_after_pickle',
+              4: 'dir_mtime_unchanged'}
+
+
+def g_dir(d):
+    return '(@nil N)' if not d else '[' + ';'.join(str(x) for x in d) + ']'
+
+
+def g_key(d, n, e):
+    return '(%s, %d, %s)' % (g_dir(d), n, 'Pyi' if e == PYI else 'Py')
+
+
+def g_op(op):
+    k = op[0]
+    if k == 'write':
+        _, d, n, e, c, tf, td = op
+        return 'OWrite %s %d %d %d' % (g_key(d, n, e), c, tf, td)
+    if k == 'delete':
+        _, d, n, e, td = op
+        return 'ODelete %s %d' % (g_key(d, n, e), td)
+    if k == 'mkdir':
+        _, d, n, ts, td = op
+        return 'OMkDir %s %d %d %d' % (g_dir(d), n, ts, td)
+    if k == 'rmdir':
+        _, d, n, td = op
+        return 'ORmDir %s %d %d' % (g_dir(d), n, td)
+    raise ValueError(op)
+
+
+def g_case(hist, decoded):
+    """decoded: per query a list of ((a, b) observed, (a, b) oracle)."""
+    ops, exp = [], []
+    qi = 0
+    for st in norm_steps(hist['steps']):
+        if st[0] == 'mut':
+            ops += [g_op(op) for op in st[2]]
+        elif st[0] == 'newproc':
+            ops.append('ONewProc %d' % st[1])
+        else:
+            _, pid, tq, q = st
+            ops.append('OQuery %d %d %s' % (pid, tq, g_list([t[0] for t in q['targets']], g_dir, 'list N')))
+            ps = []
+            for (ch, form, arg, style), (o, f) in zip(q['targets'], decoded[qi]):
+                ps.append('(%d, %d, (%d, %d), (%d, %d))' % (form, arg, o[0], o[1], f[0], f[1]))
+            exp.append(g_list(ps, str, 'probe'))
+            qi += 1
+    return '(1, %s, %s)%%N' % (g_list(ops, str, 'op'), g_list(exp, str, 'list probe'))
+
+
+# ---------------------------------------------------------------------------------------------
+# the three refutation witnesses of Props/C09.v as executable histories (content codes 1, 2)
+
+def witness_histories():
+    contents = make_contents(random.Random(7))
+    t = [((1,), F_ATTR, 0, 0), ((1,), F_FROM, 1, 0), ((1,), F_FROM, 2, 0), ((1,), F_INFER, 0, 1)]
+
+    def q(pid, tq):
+        return ('query', pid, tq, dict(kind='abs', pkg=None, targets=list(t)))
+
+    def w(c, tf, td):
+        return ('mut', ('write', ((), 1, PY)), [('write', (), 1, PY, c, tf, td)])
+    hs = {
+        'same-mtime': [w(1, 5, 5), q(0, 6), w(2, 5, 5), q(0, 7)],
+        'older-mtime': [w(1, 5, 5), q(0, 6), w(2, 3, 5), q(0, 7)],
+        'dir-unchanged': [q(0, 2), w(1, 9, 1), q(0, 10)],
+        'not-after-pickle': [w(1, 5, 5), q(0, 100), w(2, 50, 5), ('newproc', 1), q(1, 101), q(0, 102)],
+        'monotone-control': [w(1, 5, 5), q(0, 6), w(2, 8, 9), q(0, 10), ('newproc', 1), q(1, 11)],
+    }
+    out = []
+    for name, steps in hs.items():
+        out.append(dict(seed=name, regime='witness', contents={str(k): v[0] for k, v in contents.items()},
+                        sigs={str(k): [list(x) for x in v[1]] for k, v in contents.items()}, steps=steps))
+    return out
+
+
+# ---------------------------------------------------------------------------------------------
+# evaluation
+
+def canon_rows(rows):
+    if isinstance(rows, dict):
+        return rows
+    return sorted(tuple(r) for r in rows)
+
+
+def evaluate(ctx, hists, results):
+    """Decode, compare with the model in Coq, check the property against the oracle, classify."""
+    usable, decoded_all = [], []
+    stats = dict(histories=0, queries=0, probes=0, stale_probes=0, helper_replaced=0, exceptions=0,
+                 spawns=0, mutations={}, forms={}, by_flag={})
+    for hist, res in zip(hists, results):
+        if 'error' in res:
+            raise RuntimeError('history %r could not be executed: %s\n%s' % (hist['seed'], res['error'], res.get('tb')))
+        stats['spawns'] += res.get('spawns', 0)
+        qs = [st for st in norm_steps(hist['steps']) if st[0] == 'query']
+        assert len(qs) == len(res['results']), (len(qs), len(res['results']))
+        if any(r['helper_replaced'] for r in res['results']):
+            stats['helper_replaced'] += 1      # took > 10 min of wall time: not the history any more
+            continue
+        decoded, bad = [], False
+        for st, rr in zip(qs, res['results']):
+            q = st[3]
+            row = []
+            for ti in range(len(q['targets'])):
+                pair = []
+                for which in ('obs', 'orc'):
+                    rows = rr[which]
+                    rows = rows[ti] if isinstance(rows, list) else rows
+                    if isinstance(rows, dict):
+                        stats['exceptions'] += 1
+                        sig = rows['exc']
+                        ctx.deviation(dict(stream=hist['regime'], exc=sig['exc'], site=sig['site']),
+                                      dict(history=hist, script=rr['code'], path=rr['path'], which=which, error=sig),
+                                      'the API raised %s in the %s process' % (sig['exc'], which))
+                        bad = True
+                        pair.append((GARBLED, GARBLED))
+                    else:
+                        pair.append(decode(hist, q, ti, rows, rr['path']))
+                row.append(tuple(pair))
+            decoded.append(row)
+        if bad:
+            continue
+        usable.append((hist, res))
+        decoded_all.append(decoded)
+        stats['histories'] += 1
+        for st in norm_steps(hist['steps']):
+            if st[0] == 'mut':
+                for op in st[2]:
+                    stats['mutations'][op[0]] = stats['mutations'].get(op[0], 0) + 1
+                if st[1][0] == 'rename':
+                    stats['mutations']['(as rename)'] = stats['mutations'].get('(as rename)', 0) + 1
+
+    cases = [g_case(h, d) for (h, _), d in zip(usable, decoded_all)]
+    fails, err = common.coq_failing(IMPORTS, 'check_case', cases, shard=12, timeout=COQ_TIMEOUT, defs=DEFS)
+    if err:
+        raise RuntimeError('coq evaluation failed (check_case): ' + err)
+    desc, err = common.coq_eval_N_lists(IMPORTS, 'describe_case', cases, shard=12, timeout=COQ_TIMEOUT, defs=DEFS)
+    if err:
+        raise RuntimeError('coq evaluation failed (describe_case): ' + err)
+    fails = set(fails)
+
+    for hi, ((hist, res), decoded) in enumerate(zip(usable, decoded_all)):
+        qs = [st for st in norm_steps(hist['steps']) if st[0] == 'query']
+        d = desc[hi]
+        nprobes = sum(len(st[3]['targets']) for st in qs)
+        if d is None or len(d) != 5 * nprobes:
+            raise RuntimeError('describe_case returned %r for history %r' % (d, hist['seed']))
+        pos = 0
+        py_bad = False
+        for qi, (st, rr) in enumerate(zip(qs, res['results'])):
+            _, pid, tq, q = st
+            stats['queries'] += 1
+            for ti, (ch, form, arg, style) in enumerate(q['targets']):
+                m_obs, m_fresh, mask = (d[pos], d[pos + 1]), (d[pos + 2], d[pos + 3]), d[pos + 4]
+                pos += 5
+                obs, orc = decoded[qi][ti]
+                raw_o = canon_rows(rr['obs'][ti])
+                raw_f = canon_rows(rr['orc'][ti])
+                stats['probes'] += 1
+                stats['forms'][FORM_NAMES[form]] = stats['forms'].get(FORM_NAMES[form], 0) + 1
+                ctx.count('hist-' + hist['regime'], (hist['seed'], qi, ti), nontrivial=orc != (0, 0) or obs != (0, 0))
+                corr_ok = obs == m_obs and orc == m_fresh
+                py_bad = py_bad or not corr_ok
+                prop_ok = raw_o == raw_f
+                flags = sorted({FLAG_NAMES[b] for b in FLAG_NAMES if mask >> b & 1})
+                where = dict(history_seed=hist['seed'], regime=hist['regime'], query=qi, target=ti, pid=pid,
+                             chain=[nm(x) for x in ch], form=FORM_NAMES[form], script=rr['code'], script_path=rr['path'],
+                             observed=raw_o, fresh_empty_cache_process=raw_f,
+                             decoded=dict(observed=obs, oracle=orc, model=m_obs, model_fresh=m_fresh), model_flags=flags)
+                if not prop_ok:
+                    stats['stale_probes'] += 1
+                    predicted = corr_ok and bool(flags) and hist['regime'] != 'mono'
+                    for fl in flags if predicted else ['unpredicted']:
+                        stats['by_flag'][fl] = stats['by_flag'].get(fl, 0) + 1
+                    sig = dict(stream='history', predicted_by_model=predicted)
+                    for name in set(FLAG_NAMES.values()):
+                        sig[name] = predicted and name in flags
+                    ctx.deviation(sig, dict(where=where, history=hist),
+                                  'a Script in %s answers differently from a fresh process with an empty cache '
+                                  '(import %s, %s)%s' % (
+                                      'process %d' % pid, '.'.join(nm(x) for x in ch), FORM_NAMES[form],
+                                      '; the model predicts this stale answer: ' + ', '.join(flags) if predicted
+                                      else '; the model does NOT predict this answer'))
+                elif not corr_ok:
+                    ctx.violation('obligation', dict(
+                        what='correspondence C09: the implementation answers like the fresh process but the model '
+                             'predicts something else (stateful run or fresh_import)', where=where, history=hist), nofail=True)
+                if len(ctx.cov['samples']) < 6 and (not prop_ok or (qi > 1 and orc != (0, 0))):
+                    ctx.sample(dict(stream='hist-' + hist['regime'], chain=[nm(x) for x in ch], form=FORM_NAMES[form],
+                                    process=pid, observed=obs, oracle=orc, model=m_obs, flags=flags))
+        coq_bad = hi in fails
+        if coq_bad != py_bad:
+            raise RuntimeError('check_case and describe_case disagree on history %r' % (hist['seed'],))
+    return stats
+
+
+def merge_stats(a, b):
+    for k, v in b.items():
+        if isinstance(v, dict):
+            d = a.setdefault(k, {})
+            for kk, vv in v.items():
+                d[kk] = d.get(kk, 0) + vv
+        else:
+            a[k] = a.get(k, 0) + v
+    return a
+
+
+def run(ctx):
+    common.setup_jedi(os.path.join(ctx.tmp, 'cache'))     # import only: no Script is ever created in this process
+    ctx.proofs()
+    fps = common.fingerprint(FP)
+    ctx.cov['fingerprints'] = fps
+    changed = sorted(k for k in fps if BASE_FP.get(k) != fps[k])
+    ctx.cov['intensified'] = changed
+    mult = 2 if (changed and ctx.quick) else 1
+    scale = float(os.environ.get('C09_SCALE', '1'))      # debugging aid: 0 = witnesses only
+    n_mono, n_adv = int(ctx.n(10, 60) * mult * scale), int(ctx.n(16, 100) * mult * scale)
+    lo, hi = ctx.n(4, 6), ctx.n(8, 12)
+    ctx.cov['rule'] = (
+        'witness: 5 fixed histories (the refutation witnesses of Props/C09.v + a monotone control); '
+        'hist-mono / hist-adv: seeded projects (<= 4 top-level names, <= 2 sub-module names, packages, namespace '
+        'directories, stubs) x mutation histories (write, overwrite, touch, delete, rename, module<->package, '
+        'mkdir/rmtree, add/remove __init__.py, stub) x one Script after every step in the long-lived process and/or '
+        'a just-restarted process sharing the pickle directory, 2-4 import probes per Script (attr-complete, '
+        'star-complete, infer-module, from-goto; absolute and relative); every probe is also asked of a fresh '
+        'process with an empty cache directory; one evaluation = one probe; non-trivial = something is resolved; '
+        'distinct by (history, query, probe)')
+    ctx.assumptions += [
+        'parso cache, importlib FileFinder and jedi stub lookup are modelled (dependencies), validated only by these streams',
+        'a "process" is a fork of a worker that imported jedi but never created a Script/helper/tree; it starts its own helper',
+        'timestamps: model time t = mtime 1e9+t s set with os.utime on every file, directory and freshly written pickle',
+        'parso\'s in-memory cache eviction (>= 600 entries) and 30-day pickle cleanup are out of reach of <= 8 module projects',
+        'jedi replaces its cached default environment (and helper) after 10 minutes: histories that take longer are dropped and counted',
+    ]
+    hists = witness_histories()
+    for i in range(n_mono):
+        hists.append(gen_history(ctx.rng.randrange(1 << 40), 'mono', ctx.rng.randint(lo, hi)))
+    for i in range(n_adv):
+        hists.append(gen_history(ctx.rng.randrange(1 << 40), 'adv', ctx.rng.randint(lo, hi)))
+    t = time.time()
+    results = common.pmap(run_history, hists, chunksize=1, timeout=7200)
+    ctx.stat('wall_histories', round(time.time() - t, 1))
+    t = time.time()
+    stats = evaluate(ctx, hists, results)
+    ctx.stat('wall_coq', round(time.time() - t, 1))
+    for k, v in stats.items():
+        ctx.stat(k, v)
+    ctx.stat('history_lengths', sorted(len(h['steps']) for h in hists)[::max(1, len(hists) // 10)])
+    if stats['helper_replaced'] > len(hists) // 3:
+        ctx.violation('obligation', dict(what='more than a third of the histories took longer than jedi\'s 10-minute '
+                                              'environment cache: the machine is too loaded for this check'), nofail=True)
+    # the refutation witnesses must really be stale on the implementation (they are the known findings)
+    seen = ctx.cov.get('deviation_histogram', {})
+    for name in ('same_or_older_mtime', 'mtime_not_after_pickle', 'dir_mtime_unchanged'):
+        if not any(json.loads(k).get(name) for k in seen):
+            ctx.violation('obligation', dict(what='refutation witness %s of C09_stale_without_monotone_refuted is not '
+                                                  'reproduced by the implementation (model and code disagree on the '
+                                                  'cache validation rule, or the rule was fixed: update model and findings)' % name),
+                          nofail=True)
+
+
+def replay(ctx, path):
+    rec = json.load(open(path))
+    hist = rec.get('history')
+    print(json.dumps({k: v for k, v in rec.items() if k != 'history'}, indent=1, ensure_ascii=False)[:4000])
+    if not hist:
+        return 0
+    common.setup_jedi(os.path.join(ctx.tmp, 'cache'))
+    res = common.pmap(run_history, [hist], chunksize=1, timeout=7200)[0]
+    if 'error' in res:
+        print('history failed:', res['error'], res.get('tb'))
+        return 0
+    qs = [st for st in norm_steps(hist['steps']) if st[0] == 'query']
+    decoded = []
+    for qi, (st, rr) in enumerate(zip(qs, res['results'])):
+        row = []
+        for ti, t in enumerate(st[3]['targets']):
+            o = decode(hist, st[3], ti, rr['obs'][ti] if isinstance(rr['obs'], list) else rr['obs'], rr['path'])
+            f = decode(hist, st[3], ti, rr['orc'][ti] if isinstance(rr['orc'], list) else rr['orc'], rr['path'])
+            row.append((o or (GARBLED, GARBLED), f or (GARBLED, GARBLED)))
+            print('query %d pid %d probe %d %s %s: implementation %s, fresh empty-cache process %s' % (
+                qi, st[1], ti, '.'.join(nm(x) for x in t[0]), FORM_NAMES[t[1]], o, f))
+        decoded.append(row)
+    case = g_case(hist, decoded)
+    print('model (per probe: model obs a b, spec obs a b, flag mask):')
+    print(common.coq_show(IMPORTS, ['describe_case %s' % case, 'check_case %s' % case], defs=DEFS, timeout=COQ_TIMEOUT))
+    return 0
